@@ -34,6 +34,18 @@ type Soft struct {
 	DeletedAt gorm.DeletedAt
 }
 
+// Soft2 has two soft-delete columns: every one of them adds its own filter, none of
+// which is a condition supplied by the chain.
+type Soft2 struct {
+	ID         int64 `gorm:"primaryKey"`
+	A          int64
+	S          string
+	DeletedAt  gorm.DeletedAt
+	ArchivedAt gorm.DeletedAt
+}
+
+func (Soft2) TableName() string { return "soft2" }
+
 type model struct {
 	name    string
 	table   string
@@ -43,17 +55,22 @@ type model struct {
 	withA   func(a int64) interface{}
 	withID  func(id int64) interface{}
 	emptySl func() interface{}
+	zeroSl  func() interface{} // non-empty slice whose elements have no primary key
 }
 
 var models = []model{
 	{"plain", "plains",
 		func() interface{} { return &Plain{} }, func() interface{} { return Plain{} },
 		func(s string) interface{} { return Plain{S: s} }, func(a int64) interface{} { return Plain{A: a} },
-		func(id int64) interface{} { return &Plain{ID: id} }, func() interface{} { return &[]Plain{} }},
+		func(id int64) interface{} { return &Plain{ID: id} }, func() interface{} { return &[]Plain{} }, func() interface{} { return &[]Plain{{}, {}} }},
 	{"soft", "softs",
 		func() interface{} { return &Soft{} }, func() interface{} { return Soft{} },
 		func(s string) interface{} { return Soft{S: s} }, func(a int64) interface{} { return Soft{A: a} },
-		func(id int64) interface{} { return &Soft{ID: id} }, func() interface{} { return &[]Soft{} }},
+		func(id int64) interface{} { return &Soft{ID: id} }, func() interface{} { return &[]Soft{} }, func() interface{} { return &[]Soft{{}, {}} }},
+	{"soft2", "soft2",
+		func() interface{} { return &Soft2{} }, func() interface{} { return Soft2{} },
+		func(s string) interface{} { return Soft2{S: s} }, func(a int64) interface{} { return Soft2{A: a} },
+		func(id int64) interface{} { return &Soft2{ID: id} }, func() interface{} { return &[]Soft2{} }, func() interface{} { return &[]Soft2{{}, {}} }},
 }
 
 type step struct {
@@ -137,9 +154,10 @@ var finishers = []finisher{
 	{`Delete(&M{}, map{})`, false, func(db *gorm.DB, m model) *gorm.DB { return db.Delete(m.zeroPtr(), map[string]interface{}{}) }},
 	{`Delete(&M{}, []int64{})`, false, func(db *gorm.DB, m model) *gorm.DB { return db.Delete(m.zeroPtr(), []int64{}) }},
 	{`Delete(&[]M{})`, false, func(db *gorm.DB, m model) *gorm.DB { return db.Delete(m.emptySl()) }},
+	{`Delete(&[]M{{},{}})`, false, func(db *gorm.DB, m model) *gorm.DB { return db.Delete(m.zeroSl()) }},
 }
 
-const nModes = 2 // how the model is supplied to update finishers: Model(&M{}) | Table(t)
+const nModes = 3 // how the model is supplied to update finishers: Model(&M{}) | Table(t) | Model(&[]M{{},{}})
 
 func maxLen(tier string) int {
 	if tier == "thorough" {
@@ -182,7 +200,8 @@ type env struct {
 var E *env
 
 const seedSQL = `
-DELETE FROM plains; DELETE FROM softs;
+DELETE FROM plains; DELETE FROM softs; DELETE FROM soft2;
+INSERT INTO soft2(id,a,s,deleted_at,archived_at) VALUES (1,1,'t1',NULL,NULL),(2,2,'t2',NULL,NULL),(3,1,'t3','2020-01-01 00:00:00',NULL),(4,2,'t4',NULL,'2020-01-01 00:00:00');
 INSERT INTO plains(id,a,s) VALUES (1,1,'p1'),(2,1,'p2'),(3,2,'p3'),(4,3,'p4');
 INSERT INTO softs(id,a,s,deleted_at) VALUES (1,1,'s1',NULL),(2,2,'s2',NULL),(3,1,'s3','2020-01-01 00:00:00'),(4,2,'s4','2020-01-01 00:00:00');
 `
@@ -192,7 +211,7 @@ func open(c *core.Ctx, agu bool) *vdb.Handle {
 	if err != nil {
 		panic(err)
 	}
-	if err := h.DB.AutoMigrate(&Plain{}, &Soft{}); err != nil {
+	if err := h.DB.AutoMigrate(&Plain{}, &Soft{}, &Soft2{}); err != nil {
 		panic(err)
 	}
 	if _, err := h.SQL.Exec(seedSQL); err != nil {
@@ -203,7 +222,7 @@ func open(c *core.Ctx, agu bool) *vdb.Handle {
 
 func initEnv(c *core.Ctx) {
 	E = &env{h: open(c, false), hCfgAGU: open(c, true)}
-	E.seed = vdb.Dump(E.h.SQL, "plains", "softs")
+	E.seed = vdb.Dump(E.h.SQL, "plains", "softs", "soft2")
 }
 
 func reseed(h *vdb.Handle) {
@@ -231,6 +250,9 @@ func runOp(h *vdb.Handle, m model, chain []int, fin finisher, mode int, sessAGU 
 		if mode == 0 {
 			db = db.Model(m.zeroPtr())
 			desc = append(desc, "Model(&M{})")
+		} else if mode == 2 {
+			db = db.Model(m.zeroSl())
+			desc = append(desc, "Model(&[]M{{},{}})")
 		} else {
 			db = db.Table(m.table)
 			desc = append(desc, "Table(t)")
@@ -258,7 +280,7 @@ func runOp(h *vdb.Handle, m model, chain []int, fin finisher, mode int, sessAGU 
 	desc = append(desc, fin.name)
 	mark := h.Rec.Mark()
 	res := fin.f(db, m)
-	return opResult{err: res.Error, rows: res.RowsAffected, events: h.Rec.Since(mark), dump: vdb.Dump(h.SQL, "plains", "softs")},
+	return opResult{err: res.Error, rows: res.RowsAffected, events: h.Rec.Since(mark), dump: vdb.Dump(h.SQL, "plains", "softs", "soft2")},
 		m.name + ": db." + strings.Join(desc, ".")
 }
 
@@ -285,7 +307,7 @@ func run(c *core.Ctx) {
 	mode := i % nModes
 	chain := decodeChain(chainIdx)
 	fin, m := finishers[fi], models[mi]
-	if !fin.needsMdl && mode == 1 {
+	if !fin.needsMdl && mode >= 1 {
 		// Delete takes its model from the value; mode 1 would duplicate mode 0: use it for
 		// a decoy instead (an AllowGlobalUpdate session used first must not leak into the handle)
 		E.h.DB.Session(&gorm.Session{AllowGlobalUpdate: true}).Model(m.zeroPtr()).Where("1 = 0").Update("s", "decoy")
@@ -382,7 +404,7 @@ func cases(tier string) int {
 var Engine = &core.Engine{
 	ID:    "C09",
 	Level: "exploration",
-	Rule: "enumeration of every chain of condition-free calls up to length 2 (quick) / 3 (thorough) over 28 call forms x 12 update/delete finishers x {plain, soft-delete} model x {Model(), Table()}; " +
+	Rule: "enumeration of every chain of condition-free calls up to length 2 (quick) / 3 (thorough) over 28 call forms x 13 update/delete finishers x {plain, soft-delete, two-soft-delete-column} model x {Model(&M{}), Table(), Model(non-empty slice without keys)}; " +
 		"a case is non-trivial when the guard demonstrably decided it: the negative chain was rejected with ErrMissingWhereClause and zero statement events (shape = literal chain), " +
 		"or the same chain with one effective condition inserted at a random position executed (shape = literal chain incl. condition)",
 	Assumptions: []string{
